@@ -65,7 +65,7 @@ PROPERTIES = {
             {"mode": "pool", "harness": "c19", "runs": {"quick": 7000, "thorough": 300000}},
         ],
         "expected_probes": ["queue observed full", "condvar timeout fired", "spurious wake-up (condvar)", "shutdown while queue in use",
-                            "linearizability histories checked", "two or more tasks running simultaneously", "pool destroyed with futures outstanding"],
+                            "linearizability histories checked", "two or more tasks running simultaneously", "pool destroyed with futures outstanding", "worker thread could not be started"],
         "components_real": ["osmium::thread::Queue", "osmium::thread::Pool", "osmium::thread::function_wrapper", "libstdc++ std::thread/mutex/condition_variable/future/packaged_task (statically linked)"],
         "components_stubbed": ["kernel scheduler and futex (baton scheduler)", "pthread mutex/condvar/once (model)", "clock (discrete-event)"],
         "assumptions": COMMON_ASSUMPTIONS,
@@ -118,7 +118,7 @@ PROPERTIES["C07"] = {
         {"mode": "c07url", "harness": "reader", "runs": {"quick": 15000, "thorough": 600000}, "share": 0.2},
         {"mode": "c07enum", "harness": "reader", "runs": {"quick": 600, "thorough": 20000}, "stall_s": 300, "share": 0.35},
     ],
-    "expected_probes": ["hard fault fired", "exception reached the caller", "consumer abandoned the Reader early", "enumerated truncation lengths", "enumerated EIO read indices", "URL input: child process started", "URL input: failing transfer", "URL input: fork failed", "writer blocked on a full pipe", "write to a pipe without readers (EPIPE)"],
+    "expected_probes": ["hard fault fired", "exception reached the caller", "consumer abandoned the Reader early", "enumerated truncation lengths", "enumerated EIO read indices", "URL input: child process started", "URL input: failing transfer", "URL input: fork failed", "a thread of the Reader could not be started", "writer blocked on a full pipe", "write to a pipe without readers (EPIPE)"],
     "components_real": READER_REAL + ["Reader::execute()/open_input_file_or_url()/close() child-process handling for URL input (mode c07url)"],
     "components_stubbed": READER_STUB + ["pipe()/fork()/waitpid(): bounded in-memory pipe with blocking ends; the curl child is a simulated thread that writes the input in pieces, gets EPIPE when the read end is gone, may exit non-zero or stop early; fork() may fail (mode c07url)"],
     "assumptions": COMMON_ASSUMPTIONS + ["mode c07url: the child behaves like curl with SIGPIPE ignored (exit status 23 on EPIPE); the read end the real child closes before exec is not modelled; damaged .gz inputs are not compared differentially in this mode", "mode c07: fault positions (j, L, corruption offsets) and stop points k are sampled by the seed; mode c07enum: every truncation length and every failing read index is enumerated for small inputs (<= 900 bytes) with the script header + read to EOF + close"],
